@@ -214,7 +214,7 @@ def run(prop, tier):
                 # non-trivial: the orders matter for this payload; distinct by orders, field types/lengths, parity
                 rep.distinct((t["bo"], t["wo"], tuple((e["type"], len(e["img"])) for e in adds), total % 2))
             if v["status"] == "OK":
-                if kept[0] < 8:
+                if kept[0] < 8 and not t.get("recorded"):
                     kept[0] += 1
                     ok_traces.append(t)
                 continue
@@ -248,6 +248,15 @@ def run(prop, tier):
             pending = (ex.submit(validate_traces, "PayloadTrace", "PayloadTrace.cfg", nxt, shards=16), nxt)
         judge(pending[1], *pending[0].result())
         rep.notes["model_deviations_rejected_by_tlc"] = devs.result()
+    # what the repository's own tests made the builder / decoder do (recorded by harness/repotrace_plugin.py)
+    import repotests
+    rd = repotests.record()
+    rec = rd.get("payload", [])
+    if rec:
+        rv, rst = validate_traces("PayloadTrace", "PayloadTrace.cfg", rec, shards=1)
+        judged = [t for t in rec if rv[t["id"]]["status"] != "UNJUDGED"]       # e.g. a test reading past the end of its payload
+        judge(judged, rv, rst)
+    repotests.note(rep, rd, "payload")
     rep.notes["traces"] = {"mc_payloads_concretised": n_mc, "edge_values": n_edge, "random_payloads": n_rand}
     rep.notes["verdicts"] = counts
     rep.notes["float_classes_seen"] = sorted("%s:%s" % c for c in classes)
